@@ -1,9 +1,9 @@
 From Coq Require Extraction ExtrOcamlBasic.
-From PV Require Import Lib.Bytes Model.Modes.
+From PV Require Import Lib.Bytes Model.Modes Model.ModesPara.
 (* a script = the events of constant checks; the harness drives the real
    Logger+Autofix with the same events *)
 Definition run_script (m : mode) (only : list str) (ls : list lstate) (evs : list event) : state :=
   run_events m only (init ls) evs.
 (* oracle/common.ml mentions the type z *)
 Definition z_for_common : Z := 0%Z.
-Extraction "C04_model.ml" run_script mk_line run z_for_common.
+Extraction "C04_model.ml" run_script mk_line run para_decision z_for_common.
